@@ -113,17 +113,107 @@ def cond_roots(x):
 IMMUTABLE_ATOMS = frozenset(["str", "int", "float", "bool", "NoneType", "bytes"])
 
 
-def payload_is_isolated(p, payload, obj):
+def structural_deep_copy(eng, callee):
+    """is the repository function `callee` (a "repo:..." callee string) a hand-written deep copy
+    of plain data: dicts, lists and tuples are rebuilt with every value copied by the function
+    itself (recursively), anything else is returned as it is only when it is none of those"""
+    from sa.terms import P, is_call
+    from sa.walker import State
+
+    hit = eng.callee_index.get(callee)
+    if hit is None:
+        return False
+    fi = hit[0]
+    if len(fi.params()) != 1:
+        return False
+    sm = eng.walk(fi.qualname)
+    x = P(sm.params[0])
+    me = "repo:" + fi.qualname
+
+    def rec(t, arg_ok):
+        return is_call(t) and t[1].split("<")[0].split("[")[0] == me and len(t[2]) == 1 and arg_ok(t[2][0])
+
+    def elem_of_x(a):
+        return isinstance(a, tuple) and a and a[0] == "elem" and a[1] in (x, ("call", "method:items", (x,), ()), ("call", "method:values", (x,), ()))
+
+    n_ret = 0
+    for p in sm.paths:
+        if p.kind == "raise":
+            if p.value.origin == "unknown-callable":
+                continue  # the recursive call itself, not summarised
+            return False
+        n_ret += 1
+        v = p.value
+        st = State(facts=p.facts)
+        if v == x:
+            ts = st.types(x)
+            if not (st.holds(("nottype", x, frozenset(["dict"]))) and st.holds(("nottype", x, frozenset(["list"]))) and st.holds(("nottype", x, frozenset(["tuple"])))) and not (ts is not None and ts <= IMMUTABLE_ATOMS):
+                return False
+            continue
+        if isinstance(v, tuple) and len(v) == 5 and v[0] == "comp" and v[1] == "dict":
+            kv = v[3]
+            if not (isinstance(kv, tuple) and len(kv) == 4 and kv[0] == "lit" and kv[1] == "tuple" and len(kv[2]) == 2):
+                return False
+            k, val = kv[2]
+            if not (elem_of_x(k) and rec(val, lambda a: a == ("sub", x, k))):
+                return False
+            continue
+        if isinstance(v, tuple) and len(v) == 5 and v[0] == "comp" and v[1] == "list":
+            if not rec(v[3], elem_of_x):
+                return False
+            continue
+        if is_call(v, ("builtin:tuple", "builtin:list")) and len(v[2]) == 1 and isinstance(v[2][0], tuple) and len(v[2][0]) == 5 and v[2][0][0] == "comp":
+            if not rec(v[2][0][3], elem_of_x):
+                return False
+            continue
+        return False
+    return n_ret > 0
+
+
+def _rebuilt_with_copies(eng, v, x):
+    """v is a dict / list / tuple built from x's items with every value passed through a
+    structural deep copy function"""
+    from sa.terms import is_call
+
+    def copy_of(t, arg_ok):
+        return is_call(t) and t[1].startswith("repo:") and len(t[2]) == 1 and arg_ok(t[2][0]) and structural_deep_copy(eng, t[1])
+
+    def elem_of_x(a):
+        return isinstance(a, tuple) and a and a[0] == "elem" and a[1] in (x, ("call", "method:items", (x,), ()), ("call", "method:values", (x,), ()))
+
+    if isinstance(v, tuple) and len(v) == 5 and v[0] == "comp" and v[1] == "dict":
+        kv = v[3]
+        if isinstance(kv, tuple) and len(kv) == 4 and kv[0] == "lit" and kv[1] == "tuple" and len(kv[2]) == 2:
+            k, val = kv[2]
+            return elem_of_x(k) and copy_of(val, lambda a: a == ("sub", x, k))
+        return False
+    if isinstance(v, tuple) and len(v) == 5 and v[0] == "comp" and v[1] == "list":
+        return copy_of(v[3], elem_of_x)
+    if is_call(v, ("builtin:tuple", "builtin:list")) and len(v[2]) == 1 and isinstance(v[2][0], tuple) and len(v[2][0]) == 5 and v[2][0][0] == "comp":
+        return copy_of(v[2][0][3], elem_of_x)
+    return False
+
+
+def payload_is_isolated(p, payload, obj, eng=None):
     """the wrapped payload cannot share mutable state with the argument: it is copy.deepcopy(obj),
     or it is obj itself on a path where obj's exact type is an immutable atom (for which deepcopy
-    returns the same object anyway)"""
+    returns the same object anyway), or a hand-written structural deep copy of it"""
     from sa.terms import is_call
     from sa.walker import State
 
     if is_call(payload, "ext:copy.deepcopy") and payload[2] == (obj,):
         return True
+    if eng is not None and is_call(payload) and payload[1].startswith("repo:") and payload[2] == (obj,) and structural_deep_copy(eng, payload[1]):
+        return True
+    if eng is not None and _rebuilt_with_copies(eng, payload, obj):
+        return True  # (the copy function analysed in place: one level unfolded)
     if payload == obj:
-        ts = State(facts=p.facts).types(obj)
+        st = State(facts=p.facts)
+        ts = st.types(obj)
+        if ts is not None:
+            for f in st.closure():
+                if f[0] == "nottype" and f[1] == obj:
+                    ts = ts - f[2]
         return ts is not None and ts <= IMMUTABLE_ATOMS
     return False
 
